@@ -278,7 +278,7 @@ func queueOrientation(c *Ctx, qName, eName string) {
 		for _, tr := range chainTraversals(fn, e, links) {
 			n++
 			c.touch(fn)
-			name := fmt.Sprintf("traversal of %s chain in %s", eName, shortFn(outermost(fn)))
+			name := fmt.Sprintf("traversal of %s chain in %s", eName, shortFn(homeFn(fn)))
 			okLink := tr.link == popLink
 			startOK := false
 			startDesc := "?"
@@ -563,7 +563,7 @@ func ruleC01_3(c *Ctx) {
 			if s.Fn.Synthetic != "" {
 				continue
 			}
-			encl := outermost(s.Fn)
+			encl := homeFn(s.Fn)
 			if encl == p.declared(t.fn) {
 				continue
 			}
@@ -589,7 +589,7 @@ func ruleC01_3(c *Ctx) {
 			n := staticCalleeName(ci.Common())
 			switch n {
 			case "golang.org/x/sys/unix.Write", "golang.org/x/sys/unix.Writev", "syscall.Write", "golang.org/x/sys/unix.Sendto", "golang.org/x/sys/unix.Sendmsg", "golang.org/x/sys/unix.Pwrite", "syscall.Sendto":
-				encl := outermost(fn)
+				encl := homeFn(fn)
 				if shortFn(encl) == "internal/io.Writev" {
 					return // the wrapper itself
 				}
@@ -647,7 +647,7 @@ func ruleC01_3(c *Ctx) {
 		var outside []string
 		for _, s := range ss {
 			if s.Fn.Synthetic == "" {
-				outside = append(outside, shortFn(outermost(s.Fn))+" at "+c.at(s.Instr))
+				outside = append(outside, shortFn(homeFn(s.Fn))+" at "+c.at(s.Instr))
 			}
 		}
 		c.check(len(outside) == 0, "no caller of "+r.encl, c.P.pos(f.Pos()), "exported gnet wrapper is unused in the module",
@@ -658,14 +658,14 @@ func ruleC01_3(c *Ctx) {
 // localReplyGuard: a local reply may be written directly only when nothing older is pending.
 func (c *Ctx) localReplyGuard(name string, in ssa.Instruction) {
 	empty := c.P.Method(pkgCore, "MsgQueue", "Empty")
-	for _, g := range guardsAt(in.Block()) {
+	for _, g := range guardsOf(in) {
 		if call, ok := c.P.isCallTo(g.Cond, empty); ok && g.Truth {
 			_ = call
-			c.ok(name, c.at(in), "direct write guarded by inMsgQueue.Empty()", withGuards(guardsAt(in.Block())))
+			c.ok(name, c.at(in), "direct write guarded by inMsgQueue.Empty()", withGuards(guardsOf(in)))
 			return
 		}
 	}
-	c.bad(name, c.at(in), "a locally produced reply (PING, AUTH, QUIT, rejected command) is written directly while earlier forwarded requests of the same client may still be pending in inMsgQueue: it overtakes their replies", withGuards(guardsAt(in.Block())))
+	c.bad(name, c.at(in), "a locally produced reply (PING, AUTH, QUIT, rejected command) is written directly while earlier forwarded requests of the same client may still be pending in inMsgQueue: it overtakes their replies", withGuards(guardsOf(in)))
 }
 
 // ---------------------------------------------------------------------------------------------
@@ -790,7 +790,7 @@ func ruleC01_4(c *Ctx) {
 	if lastW != nil {
 		okDom := dominatesInstr(lastW.(ssa.Instruction), d.(ssa.Instruction))
 		errGuard := false
-		for _, g := range guardsAt(d.Block()) {
+		for _, g := range guardsOf(d) {
 			if x, op, y, ok := cmpGuard(g); ok && op == token.EQL && isNilConst(y) {
 				if ex, ok := x.(*ssa.Extract); ok && ex.Tuple == lastW.Value() {
 					errGuard = true
@@ -799,7 +799,7 @@ func ruleC01_4(c *Ctx) {
 		}
 		c.check(okDom && errGuard, "sread: pop only after successful write", c.at(d),
 			"messages are popped and recycled only on the err == nil edge of the final writev",
-			"messages are popped/recycled although the write may have failed or not happened yet: the reply bytes may be reused before they are sent", withGuards(guardsAt(d.Block())))
+			"messages are popped/recycled although the write may have failed or not happened yet: the reply bytes may be reused before they are sent", withGuards(guardsOf(d)))
 	}
 	popLoop := innermostLoop(loops, d.Block())
 	if popLoop == nil {
@@ -914,7 +914,7 @@ func ruleC01_5(c *Ctx) {
 		}
 		for _, s := range sys {
 			guarded := false
-			gs := guardsAt(s.Block())
+			gs := guardsOf(s)
 			for _, g := range gs {
 				if call, ok := p.isCallTo(g.Cond, isEmpty); ok && g.Truth {
 					if base, ok := fieldLoad(call.Call.Args[0], outb); ok && strip(base) == ssa.Value(fn.Params[0]) {
@@ -930,7 +930,7 @@ func ruleC01_5(c *Ctx) {
 		bufW := p.Method(pkgElastic, "Buffer", x.bufM)
 		okOther := false
 		for _, bw := range p.callsIn(fn, bufW) {
-			for _, g := range guardsAt(bw.Block()) {
+			for _, g := range guardsOf(bw) {
 				if _, ok := p.isCallTo(g.Cond, isEmpty); ok && !g.Truth {
 					arg := bw.Common().Args[len(bw.Common().Args)-1]
 					if strip(arg) == ssa.Value(fn.Params[1]) {
